@@ -242,8 +242,12 @@ def skipFirst (s : Bytes) (n : Nat) : Res (List Bytes) :=
 
 /-! ### Strings that live inside one record -/
 
-/-- `parse_short_string` (ShortXLUnicodeString; `biff8 = false` stands for BIFF5, where code page 1200
-    makes `XlsEncoding::high_byte(None)` answer `Some(false)`) -/
+/-- `parse_short_string` (ShortXLUnicodeString; `biff8 = false` stands for BIFF5: no flag byte, `high_byte = None`.
+    `XlsEncoding::high_byte(None)` answers `Some(false)` — the bytes are the low halves of 16-bit units — exactly
+    for the UTF-16 code pages (1200, which is the one modelled here, and 1201) and `None` — the bytes go to the
+    code-page decoder as they are — for every other encoding, single-, double- or multi-byte (since fix 1eaf680,
+    finding D44; before it every multi-byte encoding was widened). Other code pages are not modelled:
+    their decoders belong to encoding_rs; the harness (stage I) exercises 1252, 65001, 932, 936, 949, 950.) -/
 def parseShortString (data : Bytes) (biff8 : Bool) : Res (List Nat) :=
   if data.length < 2 then .err s!"Len:short string:2:{data.length}"
   else
